@@ -823,24 +823,24 @@ theorem sizeL_eq_sum {α : Type} (c : Codec α) (l : List α) : sizeL c l = (l.m
   | nil => rfl
   | cons a as ih => simp [sizeL, ih]
 
-/-
-getvarsize_collection, full statement (FALSE on the unchanged tree): io.GetVarSize of a collection equals the number of
-bytes WriteArray writes for it. GetVarSize recognises an element only if the element VALUE implements io.Serializable;
-the elements of []transaction.Attribute / []Signer / []Witness / []util.Uint256 … (values of types whose methods have
-pointer receivers) are not, and are counted as 0 bytes (known finding getvarsize-value-slice; used on tx.Attributes in
-services/oracle/response.go:153-156).
--/
-/-- C17 (GetVarSize of a collection) for elements GetVarSize recognises as Serializable (pointers), it is the size
-of the array codec — hence the length of what WriteArray writes. -/
-theorem getvarsize_collection_partial {α : Type} (c : Codec α) (max slot : Nat) (l : List α) (h : l.length ≤ 0xFFFFFFFF) :
-    getVarSizeSlice .serializable (l.map c.size) = (array max slot c).size l := by
-  simp only [getVarSizeSlice, array, List.length_map, sizeL_eq_sum]
-  rw [putVarUint_length, if_pos h]
+/-- C17 (GetVarSize of a collection), full statement after fix 756d84c (which this check's finding
+getvarsize-value-slice led to): for elements that are Serializable themselves (pointers) AND for addressable elements
+that are Serializable by pointer only (every SLICE of structures: []Attribute, []Signer, []Witness, []Uint256 …)
+`io.GetVarSize` is the size of the array codec — the number of bytes `WriteArray` writes. What remains: an ARRAY passed
+by value has unaddressable elements and is still counted as 0 bytes per element — but `WriteArray` cannot encode such a
+value at all (it panics taking the address), so no encoding exists to disagree with. -/
+theorem getvarsize_collection {α : Type} (c : Codec α) (max slot : Nat) (l : List α) (h : l.length ≤ 0xFFFFFFFF)
+    (k : ElemKind) (hk : k = .serializable ∨ k = .pointerOnly true) :
+    getVarSizeSlice k (l.map c.size) = (array max slot c).size l := by
+  rcases hk with rfl | rfl <;>
+  · simp only [getVarSizeSlice, array, List.length_map, sizeL_eq_sum]
+    rw [putVarUint_length, if_pos h]
 
-/-- C17 NEGATION: one attribute of 1013 bytes in a `[]transaction.Attribute`: WriteArray writes 1014 bytes,
-GetVarSize says 1. -/
+/-- regression (rule before fix 756d84c, `.other`): one attribute of 1013 bytes in a `[]transaction.Attribute` counted
+as 0 bytes (GetVarSize said 1, WriteArray wrote 1014); now it is counted; the unaddressable case still counts 0. -/
 theorem getvarsize_value_slice_wrong :
-    getVarSizeSlice .other [1013] = 1 ∧ getVarSizeSlice .serializable [1013] = 1014 := by decide
+    getVarSizeSlice .other [1013] = 1 ∧ getVarSizeSlice (.pointerOnly true) [1013] = 1014
+      ∧ getVarSizeSlice (.pointerOnly false) [1013] = 1 := by decide
 
 /-! ## typed JSON of stack items (ToJSONWithTypes / FromJSONWithTypes) -/
 
@@ -854,16 +854,21 @@ and item count (the typed form has neither limit). Hypothesis: decimal printing 
 (strconv / math/big text conversion is not modelled). The text ↔ value step (`jsonTypedText` / `Json.parse`) is tied
 to the real encoder/decoder on every run, not proved. -/
 theorem item_json_typed_roundtrip (hd : DecimalOK) (v : Item) (hw : wfJ v) :
-    fromJ (2 * Item.count v) (some (toJ v)) = .ok v :=
+    fromJ false (2 * Item.count v) (some (toJ v)) = .ok v :=
   fromJ_toJ hd (Item.count v) v (Nat.le_refl _) hw _ (Nat.le_refl _)
 
 example : wfJ (.array [.map [(.int (Item.intToLE 5), .bool true)], .byteArray [1, 2], .pointer 7, .null]) :=
   ⟨⟨⟨⟨5, by decide, rfl⟩, trivial, trivial⟩, by decide⟩, trivial, by show (7 : Nat) < 2 ^ 63; decide, trivial, trivial⟩
 
+/-- C17 (typed JSON decoder is total) `FromJSONWithTypes` answers every JSON value with an item or an error, never
+a panic (after fix ea79830, which this check's finding itemjson-typed-panic led to: `CheckIntegerSize` before
+`NewBigInteger`). -/
+theorem item_json_typed_total (fuel : Nat) (jv : Option JVal) : fromJ false fuel jv ≠ .panic :=
+  (fromJ_total fuel).1 jv
+
 /-
-json_decoders_never_panic — FALSE on the unchanged tree: `FromJSONWithTypes` hands the integer `big.Int.SetString`
-returns to `NewBigInteger`, which PANICS beyond 256 bits (known finding itemjson-typed-panic; `FromJSON` does the same
-with `1e100`: itemjson-untyped-panic). Witness: {"type":"Integer","value":"<2^255>"}.
+Regression example: with the rule BEFORE the fix (`fromJ true`) the integer 2^255 as a JSON string reached
+`NewBigInteger`, which panics beyond 256 bits; the fixed rule answers with an error.
 -/
 def digits2p255 : Bytes :=
   [0x35, 0x37, 0x38, 0x39, 0x36, 0x30, 0x34, 0x34, 0x36, 0x31, 0x38, 0x36, 0x35, 0x38, 0x30, 0x39, 0x37, 0x37, 0x31, 0x31,
@@ -873,15 +878,19 @@ def digits2p255 : Bytes :=
 
 theorem parse2p255 : parseBigInt digits2p255 = some (2 ^ 255) := by decide
 
-/-- C17 NEGATION (typed JSON decoder panics): the integer 2^255 as a JSON string. -/
+/-- regression (old rule of FromJSONWithTypes): the integer 2^255 as a JSON string panicked; now it is an error. -/
 theorem item_json_typed_panics :
-    fromJ 3 (some (.obj [(kType, .str [0x49, 0x6e, 0x74, 0x65, 0x67, 0x65, 0x72]), (kValue, .str digits2p255)])) = .panic := by
-  simp [fromJ, typeField_two, rawField_value_two, asString, parse2p255]
-  decide
+    fromJ true 3 (some (.obj [(kType, .str [0x49, 0x6e, 0x74, 0x65, 0x67, 0x65, 0x72]), (kValue, .str digits2p255)])) = .panic
+      ∧ fromJ false 3 (some (.obj [(kType, .str [0x49, 0x6e, 0x74, 0x65, 0x67, 0x65, 0x72]), (kValue, .str digits2p255)])) = .err := by
+  constructor
+  · simp [fromJ, typeField_two, rawField_value_two, asString, parse2p255]
+    decide
+  · simp [fromJ, typeField_two, rawField_value_two, asString, parse2p255]
+    decide
 
 /-- … and −2^255 is read (the bound is exact on the negative side too). -/
 theorem item_json_typed_min_ok :
-    fromJ 3 (some (.obj [(kType, .str [0x49, 0x6e, 0x74, 0x65, 0x67, 0x65, 0x72]), (kValue, .str (0x2d :: digits2p255))]))
+    fromJ false 3 (some (.obj [(kType, .str [0x49, 0x6e, 0x74, 0x65, 0x67, 0x65, 0x72]), (kValue, .str (0x2d :: digits2p255))]))
       = .ok (.int (Item.intToLE (-(2 ^ 255)))) := by
   have hp : parseBigInt (0x2d :: digits2p255) = some (-(2 ^ 255)) := by decide
   simp [fromJ, typeField_two, rawField_value_two, asString, hp]
@@ -949,16 +958,85 @@ theorem scopes_json_roundtrip (s : UInt8) (h : scopeOk s = true) : Scopes.fromSt
   rw [hs, h] at hall
   simpa using hall
 
-/-
-scopes_json_accepts_only_valid — FALSE on the unchanged tree: the loop of ScopesFromString refuses a scope AFTER
-`Global` but not `Global` after other scopes (known finding signer-json-scope-invalid): the text
-"CalledByEntry, Global" reads as 0x81, which Signer.DecodeBinary refuses and whose own text form
-"WitnessScope(129)" is not readable.
--/
-/-- C17 NEGATION (scopes accepted from JSON that the binary form refuses). -/
+/-- the invariant of the loop: only named bits are ever set. -/
+def scopeKnown (s : UInt8) : Bool :=
+  s &&& ~~~(UInt8.ofNat (WireLimits.scopeGlobal ||| WireLimits.scopeCalledByEntry ||| WireLimits.scopeCustomContracts
+    ||| WireLimits.scopeCustomGroups ||| WireLimits.scopeRules)) == 0
+
+set_option maxRecDepth 1000000 in
+theorem scopeKnown_or_all : (List.range 256).all (fun a => !scopeKnown (UInt8.ofNat a)
+    || [UInt8.ofNat WireLimits.scopeGlobal, UInt8.ofNat WireLimits.scopeCalledByEntry, UInt8.ofNat WireLimits.scopeCustomContracts,
+        UInt8.ofNat WireLimits.scopeCustomGroups, UInt8.ofNat WireLimits.scopeRules, 0].all
+          (fun sc => scopeKnown (UInt8.ofNat a ||| sc))) = true := by decide
+
+theorem scopes_lookup_vals (p : Bytes) (sc : UInt8) (h : Scopes.lookup p = some sc) :
+    sc ∈ [UInt8.ofNat WireLimits.scopeGlobal, UInt8.ofNat WireLimits.scopeCalledByEntry, UInt8.ofNat WireLimits.scopeCustomContracts,
+      UInt8.ofNat WireLimits.scopeCustomGroups, UInt8.ofNat WireLimits.scopeRules, 0] := by
+  unfold Scopes.lookup at h
+  split at h
+  · simp at h; subst h; simp
+  · split at h
+    · simp at h; subst h; simp
+    · split at h
+      · simp at h; subst h; simp
+      · split at h
+        · simp at h; subst h; simp
+        · split at h
+          · simp at h; subst h; simp
+          · split at h
+            · simp at h; subst h; simp
+            · simp at h
+
+theorem scopes_fold_known : ∀ (ps : List Bytes) (acc r : UInt8), scopeKnown acc = true → Scopes.fold ps acc = some r →
+    scopeKnown r = true := by
+  intro ps
+  induction ps with
+  | nil => intro acc r ha h; simp [Scopes.fold] at h; subst h; exact ha
+  | cons p rest ih =>
+    intro acc r ha h
+    simp only [Scopes.fold] at h
+    split at h
+    · simp at h
+    · rename_i sc hl
+      refine ih (acc ||| sc) r ?_ h
+      have hall := List.all_eq_true.mp scopeKnown_or_all acc.toNat (by simp [List.mem_range]; exact acc.toNat_lt)
+      have hs : UInt8.ofNat acc.toNat = acc := by simp
+      rw [hs, ha] at hall
+      simp only [Bool.not_true, Bool.false_or] at hall
+      exact List.all_eq_true.mp hall sc (scopes_lookup_vals _ _ hl)
+
+/-- C17 (witness scopes, JSON) full statement, true after fix b6b23d8 (which this check's finding
+signer-json-scope-invalid led to): every text `ScopesFromString` accepts denotes a scope byte the binary decoder
+accepts — no unknown bit, `Global` only alone. -/
+theorem scopes_json_accepts_only_valid (s : Bytes) (v : UInt8) (h : Scopes.fromString s = some v) : scopeOk v = true := by
+  unfold Scopes.fromString at h
+  split at h
+  · simp at h
+  · rename_i r hf
+    split at h
+    · simp at h
+    · rename_i hg
+      simp at h; subst h
+      have hk := scopes_fold_known _ 0 r (by decide) hf
+      unfold scopeKnown at hk
+      unfold scopeOk
+      simp only [hk, Bool.true_and]
+      have hg' : ¬ r &&& UInt8.ofNat WireLimits.scopeGlobal = 0 → r = UInt8.ofNat WireLimits.scopeGlobal := by simpa using hg
+      by_cases h0 : r &&& UInt8.ofNat WireLimits.scopeGlobal = 0
+      · simp [h0]
+      · simp [hg' h0]
+
+-- non-vacuity: the text of every valid scope is accepted (scopes_json_roundtrip), e.g. three scopes in any order
+example : Scopes.fromString (Scopes.nRules ++ [0x2c] ++ Scopes.nCalledByEntry ++ [0x2c, 0x20] ++ Scopes.nCustomGroups)
+    = some 0x61 := by decide
+
+/-- regression (the loop of ScopesFromString BEFORE fix b6b23d8, `Scopes.fromStringOld`): "CalledByEntry, Global" read
+as 0x81, which the binary form refuses and whose own text "WitnessScope(129)" is not readable, while the other order
+was refused; the fixed rule refuses both. -/
 theorem scopes_json_accepts_invalid :
-    Scopes.fromString (Scopes.nCalledByEntry ++ [0x2c, 0x20] ++ Scopes.nGlobal) = some 0x81 ∧ scopeOk 0x81 = false
-      ∧ Scopes.fromString (Scopes.toString 0x81) = none
+    Scopes.fromStringOld (Scopes.nCalledByEntry ++ [0x2c, 0x20] ++ Scopes.nGlobal) = some 0x81 ∧ scopeOk 0x81 = false
+      ∧ Scopes.fromStringOld (Scopes.nGlobal ++ [0x2c, 0x20] ++ Scopes.nCalledByEntry) = none
+      ∧ Scopes.fromString (Scopes.nCalledByEntry ++ [0x2c, 0x20] ++ Scopes.nGlobal) = none
       ∧ Scopes.fromString (Scopes.nGlobal ++ [0x2c, 0x20] ++ Scopes.nCalledByEntry) = none := by decide
 
 end NeoModel.Wire
